@@ -3,6 +3,8 @@ when armed, raises.  Nothing in the harness or in the generated program invokes 
 entry in the hook journal that appears only in the traced run was caused by the tracer.
 """
 import collections
+import collections.abc
+import types
 
 HJ = []            # hook journal: (oid, hook, detail)
 _A = HJ.append
@@ -284,8 +286,37 @@ class CallProxy:
         raise AttributeError(name)
 
 
-KINDS = ["GA", "GT", "CG", "CP", "HE", "L", "D", "DD", "S", "T", "MI", "MIcls", "DS"]
+class UM(collections.abc.Mapping):
+    """User-defined (pure Python) lazy mapping: every protocol method journals."""
+
+    def __init__(self, oid):
+        self._oid = oid
+        self._d = {"a": 1}
+
+    def __getitem__(self, k):
+        _hit(self._oid, "UM.__getitem__")
+        return self._d[k]
+
+    def __iter__(self):
+        _hit(self._oid, "UM.__iter__")
+        return iter(self._d)
+
+    def __len__(self):
+        _hit(self._oid, "UM.__len__")
+        return len(self._d)
+
+
+KINDS = ["GA", "GT", "CG", "CP", "HE", "L", "D", "DD", "S", "T", "MI", "MIcls", "DS",
+         # standard-library containers (exact types) that wrap / hold user objects: looking inside them runs the user's protocol methods
+         "CM", "CMdd", "MP", "UD", "UL", "DQ", "OD", "FS", "CT"]
+# tripwire kinds that may be bound to a module global of the fixture package (function lookup scans module globals)
+GLOBAL_KINDS = ["GA", "GT", "CG", "CP", "HE", "MI", "MIcls", "L", "D"]
 CALLABLE_KINDS = {"CG", "CallProxy"}
+
+
+def _mk(o, oid):
+    o._oid = oid
+    return o
 
 
 def factory(fnames):
@@ -312,6 +343,31 @@ def factory(fnames):
             o = S([1, 2])
         elif kind == "T":
             o = T((1, "x"))
+        elif kind == "CM":
+            return collections.ChainMap({"x": 1}, UM(oid), _mk(D({"k": 1}), oid))
+        elif kind == "CMdd":
+            # a ChainMap whose first layers are defaultdicts: looking a key up layer by layer inserts it (changes the program's data)
+            return collections.ChainMap(collections.defaultdict(list), collections.defaultdict(int, {"n": 1}), {"z": 2})
+        elif kind == "MP":
+            return types.MappingProxyType(_mk(D({"k": 1}), oid))
+        elif kind == "UD":
+            u = collections.UserDict()
+            u.data = _mk(D({"k": 1}), oid)
+            return u
+        elif kind == "UL":
+            u = collections.UserList()
+            u.data = _mk(L([1, "x"]), oid)
+            return u
+        elif kind == "DQ":
+            return collections.deque([GA(oid), HE(oid)])
+        elif kind == "OD":
+            return collections.OrderedDict([("a", HE(oid)), ("b", GA(oid))])
+        elif kind == "FS":
+            return frozenset([HE(oid)])
+        elif kind == "CT":
+            c = collections.Counter()
+            dict.__setitem__(c, HE(oid), 1)
+            return c
         elif kind == "MI":
             return MI(oid)
         elif kind == "MIcls":
